@@ -16,8 +16,10 @@ LEVEL_TEXT = ("Theorems in Lean about the rendering model: the href of a referen
               "witness for other names is proved (recorded finding). MarkdownRecipe.render is tied to the model byte for byte (C13 correspondence) and "
               "every link of every rendered page is resolved by the oracle at several scales.")
 LEVEL_NOTE = ("Trusted: Lean kernel; render model as far as correspondence exercises it; html.parser in the oracle. That the definition is on the page "
-              "(a root of an earlier tree) comes from validity (C08), checked per document. Known finding: distinct output names can share an id.")
-LEAN_MODULES = ["RecipeGrid.Props.C09"]
+              "(a root of an earlier tree) comes from validity (C08), checked per document. For whole pages (C09b): href_is_id_of_definition and link_lands_on_definition for every structurally "
+              "valid recipe (hence every compile result: compile_links_land), ids_unique_iff / page_ids_unique_iff (ids are unique iff the sanitised output names "
+              "of each recipe are), link_ambiguous_iff, scale_ids_consistent. Known finding: distinct output names can share an id.")
+LEAN_MODULES = ["RecipeGrid.Props.C09", "RecipeGrid.Props.C09b"]
 SOURCES = ["recipe_grid/renderer/html.py", "recipe_grid/markdown.py"]
 RULE = ("documents of C13 with one or more independent recipes of one or more blocks (references within and across blocks, multi-output sub recipes, names "
         "with punctuation, other scripts and scaled numbers) rendered at scales 1, 2, 3/2; non-trivial = page has a reference cell; distinct = distinct documents")
@@ -44,6 +46,10 @@ def check_doc(text, scales=(1, 2, Fraction(3, 2), 1.5, 1.0, 0.5), descs=None):
         mr = M.compile_markdown(text)
     except Exception:
         return out
+    try:
+        list(mr.recipes)
+    except Exception as e:  # noqa
+        return [("C09:recipes-of-a-compiled-document-raise:%s" % type(e).__name__, str(e)[:200])]
     if descs is not None:
         # the references the author wrote: the documented by-name meaning of each independent recipe
         from .. import gen_desc
@@ -137,8 +143,14 @@ NUMBERED_NAME_DOC = "# Pies for 2\n\n    filling for {1 1/2} pies = mix(2 apples
 ACCENT_DOC = "# T for 2\n\n    pâte = 1 egg, mixed\n    pâté = 2 livers, cooked\n    crème = 1 cup cream, whipped\n    creme = 2 cups milk, boiled\n    wrap(1/2 of pâte, 1/2 of pâté, 1/2 of crème, 1/2 of creme)\n"
 
 
+# two independent recipes that begin with the very same block (and a third that shares a later block)
+TWIN_RECIPES_DOC = ("# Pies\n\n```recipe\npastry = mix(200 g flour, 100 g butter)\n```\n\n```recipe\napple pie = bake(1/2 of the pastry, apples)\nlid(remaining pastry)\n```\n\n"
+                    "text\n\n```new-recipe\npastry = mix(200 g flour, 100 g butter)\n```\n\n```recipe\ncherry pie = bake(pastry, cherries)\n```\n\n"
+                    "```new-recipe\nbase = crush(biscuits)\n```\n\n```recipe\npastry = mix(200 g flour, 100 g butter)\n```\n\n```recipe\ncheesecake = chill(base, pastry)\n```\n")
+
+
 def oracle(run):
-    docs = [(COLLISION_DOC, None), (ACCENT_DOC, None), (NUMBERED_NAME_DOC, None)] + [(d.text(), d.descs) for d in c13.gen_cases(run, run.budget(150, 4000))]
+    docs = [(COLLISION_DOC, None), (ACCENT_DOC, None), (NUMBERED_NAME_DOC, None), (TWIN_RECIPES_DOC, None)] + [(d.text(), d.descs) for d in c13.gen_cases(run, run.budget(150, 4000))]
     for text, descs in docs:
         run.case(("oracle", text), "rg-reference" in text or True, kind="document")
         seen = set()
